@@ -1,8 +1,10 @@
 import Driver.Rainflow
+import Driver.HCM
+import Driver.FkmNonlinear
 open PylifeVerif.Driver
 
 /-- All handlers; the first that recognises the op answers. -/
-def handlers : List (List String → Option String) := [handleRainflow]
+def handlers : List (List String → Option String) := [handleRainflow, handleHCM, handleFkmNonlinear]
 
 def answer (line : String) : String :=
   let toks := (line.splitOn " ").filter (· ≠ "")
